@@ -105,7 +105,7 @@ PROPS["C02"] = dict(
     text="Builds the real GlobalState (rules::from_config + set_rules, recording connectors with random feature sets, a real load balancer) and runs generated requests through the real process_request. Rule lists of length 0..12 with duplicates, deny and filterless rules anywhere and filters drawn from a template family (==/!= on every request attribute, port ==/>=/_:, =~ literals, cidr_match, &&/||/!, and filters that error at run time) whose true/false/error value the harness computes itself. Oracle: connect() runs on exactly the connector the reference router names, on none at all when it refuses (deny, no match, missing feature), refusals are recorded as errors; cidr_match is compared with an independent bitwise containment on a dense IPv4/IPv6 grid.",
     note="trusted: the harness truth functions for the filter templates; only canonical CIDRs are generated (the cidr crate rejects others at parse time)",
     design_ref="DESIGN.md 3 C02",
-    steps=[inproc("c02")],
+    steps=[inproc("c02"), e2e("c02")],
     assumptions=COMMON_ASSUME,
 )
 PROPS["C03"] = dict(
